@@ -139,11 +139,14 @@ class Prop(PropBase):
         res = []
         for k, off in case["queries"]:
             row_pos = order.index(k)
-            t = p["tmid"][row_pos] + off * u.s
-            q = {"t_rel": X.rat(X.time_offset_s(t, t_first))}
+            # the probe instant is built from the file's decimal TMID text (parsed exactly by astropy), not from the predictor's
+            # own idea of TMID: DT is then known independently of how the library parsed the entry
+            t = Time(case["entries"][k]["mjd"], format="mjd", precision=9) + off * u.s
+            q = {"t_rel": X.rat(X.time_offset_s(t, t_first)), "off": hx(float(off))}
             try:
                 idx, dt = p._get_index_and_dt(t)
                 q["idx"], q["dt"] = int(idx), hx(float(dt))
+                q["own_entry"] = bool(int(idx) == row_pos)       # the probe was evaluated from the entry it was built around
                 ph = p(t)
                 v = ph.view(np.ndarray)
                 q["phase"] = [hx(float(v["int"])), hx(float(v["frac"]))]
@@ -395,6 +398,14 @@ class Prop(PropBase):
                         f"tempo formula by {float(got - want):.3g} cycle (<= 2^-50 of the {float(mag):.3g}-cycle F0 term)")
             if q["type"] != "Phase" or abs(got - want) > F(1, 10**8):
                 return f"phase at DT={float(DT)} min is {float(got)!r}, tempo formula gives {float(want)!r} (diff {float(got - want):.3g})"
+            if "off" in q and code["order"][q["idx"]] == q.get("k", code["order"][q["idx"]]) and not big:
+                # the same with DT taken from the file's decimal TMID and the probe offset (independent of the library's parsing
+                # of TMID; astropy's own time arithmetic adds < 1e-9 cycle here, hence the wider bound)
+                DT2 = X.frac(unhx(q["off"])) / 60
+                want2 = F(e["rphase"]) + 60 * DT2 * f0 + sum(c * DT2**i for i, c in enumerate(cs))
+                if q.get("own_entry") and abs(got - want2) > F(1, 10**7):
+                    return (f"phase {float(abs(got - want2)):.3g} cycle away from the tempo formula evaluated at DT = t - TMID with TMID "
+                            f"as written in the file (entry {q['idx']})")
             wf = f0 + sum(i * c * DT**(i - 1) for i, c in enumerate(cs) if i >= 1) / 60
             if abs(F(unhx(q["f0"][0])) - wf) > abs(wf) * F(1, 10**10):
                 return f"f0 = {unhx(q['f0'][0])!r}, derivative of the formula = {float(wf)!r}"
